@@ -109,6 +109,14 @@ static PDU* extra(int id, vh::Rng& rng, Entry& e) {
     // an RTP packet with padding whose payload is more than one layer; an AH whose ICV is not a multiple of 4 octets (with and without
     // a layer behind it): what size() promises and where each layer writes
     case 144: { RTP r; r.payload_type(96); r.padding_size((uint8_t)rng.range(1, 8)); return (eth0() / ip0() / UDP(5004, 5004) / r / raw(rng, rng.range(1, 12)) / raw(rng, rng.range(1, 12))).clone(); }
+    // a top-level IPv4 datagram whose source was left unset: libtins fills in the address of the outgoing interface when it serialises,
+    // and the transport checksum has to be computed over the address that is written (if this host has no route the source is set by hand)
+    case 153: { e = E_IP; IP ip("127.0.0.1"); ip.ttl(9); PDU* p = rng.coin() ? (ip / TCP(1, 2) / raw(rng, rng.range(1, 20))).clone() : (ip / UDP(7, 9) / raw(rng, rng.range(1, 20))).clone();
+                try { std::unique_ptr<PDU> c(p->clone()); (void)c->serialize(); } catch (std::exception&) { static_cast<IP*>(p)->src_addr("127.0.0.1"); }
+                return p; }
+    case 151: { RTP r; r.payload_type(96); r.padding_size((uint8_t)rng.range(1, 8)); if (rng.coin()) r.padding_size((uint8_t)rng.range(1, 8)); r.padding_size(0);      // padding switched on, changed, and off again
+                return (eth0() / ip0() / UDP(5004, 5004) / r / raw(rng, rng.range(1, 12))).clone(); }
+    case 152: { IPSecAH ah; ah.spi(7); ah.seq_number(9); ah.icv(byte_array((size_t)(8 * rng.range(1, 4)), 0x5a)); return (eth0() / ip60() / ah / UDP(7, 9) / raw(rng, rng.range(1, 20))).clone(); }
     case 145: { IPSecAH ah; ah.spi(7); ah.seq_number(9); ah.icv(byte_array((size_t)(rng.coin() ? 13 : 6), 0x5a)); return (eth0() / ip60() / ah / UDP(7, 9) / raw(rng, rng.range(1, 20))).clone(); }
     case 146: { IPSecAH ah; ah.spi(7); ah.icv(byte_array((size_t)rng.range(1, 15), 0x5a)); return (eth0() / ip0() / ah).clone(); }
     case 128: { IP ip = ip0(); ip.add_option(IP::option(IP::option_identifier(IP::NOOP, IP::CONTROL, 0))); ICMP ic(ICMP::TIME_EXCEEDED); ic.extensions().add_extension(some_ext(rng)); ic.use_length_field(true); Bytes q = quoted4(rng, 4 * rng.range(20, 40));
